@@ -368,7 +368,9 @@ fn parse_token(text: &str) -> IResult<&str, Token> {
 
 fn parse_token_not_semicolon(text: &str) -> IResult<&str, Token> {
     let (rest, token) = parse_token(text)?;
-    if token == Token::Semicolon {
+    // A declaration value ends at ';' or, for the last declaration of a
+    // block, at the closing '}'.
+    if token == Token::Semicolon || token == Token::CloseBrace {
         fail(text)
     } else {
         Ok((rest, token))
